@@ -671,12 +671,16 @@ class SmallVectorBase : private Alloc {
 
   void move_assign(SmallVectorBase &o, SizeType inplaceCapa) noexcept(is_shift_nothrow<T>::value) {
     if (o.isSmall()) {
-      // No need to check 'this' capacity. If 'this' is small, then 'this' capacity is same as 'o'.
-      // If 'this' is large, then 'this' capacity is larger by design.
-      // Indeed, capacity cannot shrink, except for shrink_to_fit which resets to small state if possible.
-      // Besides, if 'this' is large, let's not shrink to small size and keep our dynamic memory for now.
-      // To sum-up, in this context, we do not touch our capacity, only move and relocates o's elements
+      // If 'this' is small, then 'this' capacity is same as 'o'.
+      // If 'this' is large and its capacity is sufficient, let's not shrink to small size and keep our dynamic memory.
       const SizeType oSize = o._capa;
+      if (capacity() < oSize) {
+        // Our heap buffer can be smaller than the inline capacity when it has been adopted from a vector
+        // (or exchanged by swap2): it cannot hold o's elements, release it and come back to the inline storage.
+        destroyFreeStorage();
+        _capa = 0;
+        _size = inplaceCapa;
+      }
       move_n(o._storage.ptr(), oSize, begin(), size());
       setSize(oSize);  // maintains the 'full' marker of the small state in both directions
       o._capa = 0;
